@@ -2,19 +2,25 @@
 
 corr  : the Lean encoding model (MakoModel/Encoding/Model.lean, driver op `encd`) against the real code:
           * `_coding_re` / `_PYTHON_MAGIC_COMMENT_re` transcriptions vs `re` (exhaustive small token strings + random);
-          * the UTF-8 decoder (strict / errors="ignore") and encoder vs CPython's, `repr` vs CPython's;
+          * the UTF-8 decoder (strict / errors="ignore") and encoder vs CPython's, `repr` vs CPython's (`ascii()` on the
+            `_template_filename` line of real module files);
           * `Lexer.decode_raw_stream` + the comment skip of `Lexer.parse`: encoding chosen, exception class, text and
             start position handed to the lexer loop - over the codec x declaration grid, random bytes, BOM variants,
-            conflicting and malformed declarations (the codec itself is CPython's, standing in for the abstract `Codec`);
+            conflicting and malformed declarations (the codec and the registry's `_is_utf8` answer are CPython's, standing in
+            for the abstract `Codec` / `Env.isUtf8`; a second stream runs the whole function in Lean for utf-8/latin-1/ascii
+            with the regenerated alias table);
           * `util.parse_encoding`, the magic comment line and the `repr`ed text of real module files, `Template.source`,
             `runtime._render`/`FastEncodingBuffer.getvalue` (which encode call, on what);
           * the codec laws the theorems assume (`AsciiPrefix`, `Charwise`, `HighBytes` = strict ASCII compatibility,
             `RoundTrip`) are TESTED per codec on its whole table / repertoire and written to the evidence.
 oracle: no Lean.  Generated templates (text, expressions, Python string literals, tag attributes, control lines with
         characters of the codec's repertoire) x codecs x declaration styles x paths {bytes, file, module directory,
-        reloaded by a fresh Template, reloaded in a fresh process, TemplateLookup}: output, `Template.source` equal
-        those of the template made from the decoded text; undecodable input / BOM-vs-comment conflict raise
-        CompileException; `render()` vs `render_unicode().encode(output_encoding, encoding_errors)`.
+        reloaded by a fresh Template, reloaded in a fresh process, TemplateLookup, module directory with a non-ASCII file
+        name}: output, `Template.source`, `render()` equal those of the template made from the decoded text, the module
+        file is in the encoding Python detects for it and equals `Template.code`; undecodable input / BOM-vs-comment
+        conflict raise CompileException; `render()` vs `render_unicode().encode(output_encoding, encoding_errors)`.
+        The expectation comes from what the generator planted, never from mako's own sniffing.  Four fixed witnesses (the
+        inputs of F-C18-1..4) are replayed first on every run.
 """
 from __future__ import annotations
 
@@ -37,10 +43,13 @@ RULE = ("templates = optional declaration line + 2..7 parts drawn from {text run
         "characters of the codec's tested repertoire mixed with ASCII (quotes, backslash, #, CR LF, tab); x codecs {ascii, utf-8, "
         "latin-1, cp1251, cp1252, koi8-r, shift_jis, euc-jp, gb2312, iso-8859-15} x declaration {comment (5 spellings), "
         "input_encoding, both agreeing, both conflicting (comment right / comment wrong), none, comment on line 2, '#' after a "
-        "non-ASCII character, UTF-8 BOM (alone / + utf-8 comment / + alias comment / + other comment / + input_encoding)} x path "
-        "{bytes, file, module directory, fresh Template on the module file, fresh process, TemplateLookup, non-ASCII file name} x "
-        "output_encoding/encoding_errors; a case is non-trivial when the source bytes are not pure ASCII or carry a declaration; "
-        "distinct = distinct (bytes, input_encoding, path)")
+        "non-ASCII character, UTF-8 BOM (alone / + utf-8 comment / + alias comment / + other comment / + input_encoding), a byte the "
+        "effective codec cannot decode} (2 cases per codec x style in the quick tier, 14 in the thorough tier; declared bodies always "
+        "contain a non-ASCII character when the codec has one) x path {bytes, file, module directory, fresh Template on the module "
+        "file, fresh process, TemplateLookup, non-ASCII file name} (thorough: all; quick: bytes + two rotating paths, conflicting "
+        "declarations always bytes + all module-file paths) x 9 output_encoding values x 6 encoding_errors handlers (render stream; quick: strict + one random handler per case); "
+        "plus adversarial byte strings around the declaration logic (6k quick / 60k thorough) for the correspondence; a case is "
+        "non-trivial when the source bytes are not pure ASCII or carry a declaration; distinct = distinct (bytes, input_encoding, path)")
 ASSUMPTIONS = [
     "codecs are CPython's; the theorems quantify over abstract codecs satisfying AsciiPrefix/AsciiCompatible/RoundTrip, and each "
     "codec of the grid is tested against those laws on every run (results in coverage.notes); shift_jis and euc-jp map U+00A5 and "
@@ -50,10 +59,16 @@ ASSUMPTIONS = [
     "texts with lone surrogates are outside the domain; non-ASCII-compatible encodings (utf-16, utf-8-sig comment) are out of scope",
     "a byte string that starts with EF BB BF is a UTF-8 BOM declaration by definition (a latin-1 text starting with these three "
     "characters cannot be told apart)",
+    "the codec registry (codecs.lookup, and with it Lexer._is_utf8) is CPython's: an abstract parameter of the model (Env), its "
+    "answer for the name behind a BOM is handed to the driver; the regenerated alias table is compared on the probed candidate names",
+    "CPython decodes the empty byte string without looking the codec up (no LookupError for an unknown name): such inputs are "
+    "skipped by the decode_raw_stream correspondence",
 ]
 TRUSTED_EXTRA = [
-    "C18: the hand transcriptions of _coding_re, _PYTHON_MAGIC_COMMENT_re, CPython's UTF-8 decoder and repr() are compared with "
-    "the originals on every run (exhaustive small strings + random)",
+    "C18: the hand transcriptions of _coding_re, _PYTHON_MAGIC_COMMENT_re, CPython's UTF-8 decoder and repr()/ascii() are compared "
+    "with the originals on every run (exhaustive small strings + random)",
+    "C18: tools/regen_encoding.py (constants, shape flags bomCompareByCodec/sourceStripsBom/namesWrittenAscii, the utf-8 alias "
+    "probe of the running interpreter)",
 ]
 REGEN = ["Unicode", "Encoding"]
 
